@@ -30,6 +30,19 @@ HARNESSES = [
 
 
 H = "hnsw_backend::HnswBackend::"
+def batch_limits(F):
+    """BatchDelete (by ids) and BulkQuery: the engine is reached only with at most MAX_BATCH_SIZE ids (DECIDES over the id count)."""
+    from vlib import mirdec as MD
+    RPCN = lambda n: "<KyroDBServiceImpl as KyroDbService>::%s::{closure#0}::{closure#0}" % n
+    out = []
+    atoms = [("n", r"^call Vec::<u64>::len$"), ("max", r"^const MAX_BATCH_SIZE$")]
+    out += MD.decides(F, RPCN("batch_delete"), "entry", {"engine": call(r"= TieredEngine::batch_delete\(", name="engine.batch_delete(ids)")}, atoms, {"engine": ("=>", "(<= n max)")},
+                      what="BatchDelete by ids reaches the engine only with at most MAX_BATCH_SIZE ids")
+    out += MD.decides(F, RPCN("bulk_query"), "entry", {"engine": call(r"= TieredEngine::bulk_query_with_source\(", name="engine.bulk_query_with_source")}, atoms, {"engine": ("=>", "(<= n max)")},
+                      what="BulkQuery reaches the engine only with at most MAX_BATCH_SIZE ids")
+    return out
+
+
 def insert_decision(F):
     """validate_insert_request: Ok <=> doc_id >= MIN_DOC_ID and the embedding is non-empty, at most MAX_EMBEDDING_DIM long and all
     finite — the whole decision, for every value of doc_id and of the length (DECIDES; the emptiness and finiteness tests are
@@ -44,6 +57,8 @@ def insert_decision(F):
 
 
 MOS = [
+    MO("O15.6/batch_limits", "BatchDelete (ids) / BulkQuery: engine call => id count <= MAX_BATCH_SIZE — for every count (DECIDES over the server binary's MIR)", batch_limits,
+       functions=[("bin/kyrodb_server.rs", "batch_delete"), ("bin/kyrodb_server.rs", "bulk_query")], target="kyrodb_server"),
     MO("O15.5/insert_decision", "validate_insert_request: Ok <=> doc_id >= MIN_DOC_ID, embedding non-empty, length <= MAX_EMBEDDING_DIM, all lanes finite — whole decision for every doc_id and length (DECIDES)",
        insert_decision, functions=[("api_validation.rs", "validate_insert_request")]),
     MO("O15.4/engine_refusal", "every engine write path goes through HnswBackend::insert, which runs normalize_in_place_if_needed and the index's own acceptance test (finite lanes, norm band) before the WAL append "
